@@ -14,7 +14,7 @@ Scenario (dict):
   callbacks  list of names that are set (default all of open message data error close ping pong)
   actions    {callback name: [action per invocation]}  action: "raise" | "close" | "kbint" | None
   user       [(t_ms, "close")]  user thread
-  runs       number of consecutive run_forever calls (default 1)
+  runs       number of consecutive run_forever calls (default 1); runs_kw: keyword arguments per run
   app_kw     further keyword arguments of WebSocketApp (header, cookie, subprotocols); header_callable: True makes the
              header option a function that returns the static lines + "X-Seq: <number of the evaluation>"
   cb_style   "partial" | "object": the callbacks are functools.partial objects / instances with __call__ (no __name__)
@@ -450,6 +450,11 @@ def run_app(sc, schedule=None, seed=None, line_preempt=None):
 
         def main():
             for r in range(sc.get("runs", 1)):
+                if sc.get("runs_kw"):            # per-run keyword arguments (the same object run with other settings)
+                    runkw.clear()
+                    runkw.update(sc["runs_kw"][r])
+                    if ext is not None:
+                        runkw["dispatcher"] = ext
                 sched.ev("run_begin", run=r, interval=int(round(1000 * (runkw.get("ping_interval") or 0))),
                          timeout=int(round(1000 * (runkw.get("ping_timeout") or 0))),
                          reconnect=int(round(1000 * (runkw.get("reconnect") if runkw.get("reconnect") is not None
